@@ -27,9 +27,10 @@ VARIABLES l,      \* next line
           sid,    \* id of the current scenario
           nd,     \* node -> [trig, ntrig, ndeliv, dacc, rot]
           viol,   \* recorded violations
-          stat    \* how often each clause's antecedent was true (vacuity guard, evidence)
+          stat,   \* how often each clause's antecedent was true (vacuity guard, evidence)
+          cells   \* C17 coverage: <<differing fields (bit mask i=1 t=2 type=4 data=8 ext=16), position in range, error class>>
 
-vars == <<l, sid, nd, viol, stat>>
+vars == <<l, sid, nd, viol, stat, cells>>
 
 CFG == 5                       \* raft.LogConfiguration
 Mismatch == {"inflight", "storage", "mismatch"}
@@ -43,7 +44,7 @@ ZeroStat == [reports |-> 0, eq |-> 0, lacks |-> 0, div |-> 0, inflight |-> 0, st
              blockedstores |-> 0, refused |-> 0, failedstores |-> 0, probes |-> 0, drops |-> 0, stores |-> 0,
              dels |-> 0, exempted |-> 0, quiesces |-> 0, undelivered |-> 0, skipped |-> 0, spurious_skipped |-> 0]
 
-Init == /\ l = 1 /\ sid = "" /\ nd = <<>> /\ viol = {} /\ stat = ZeroStat
+Init == /\ l = 1 /\ sid = "" /\ nd = <<>> /\ viol = {} /\ stat = ZeroStat /\ cells = {}
 
 Rec(cl, n) == [line |-> l, clause |-> cl, id |-> sid, n |-> n]
 V(S, n) == viol' = viol \cup {Rec(cl, n) : cl \in S}
@@ -54,17 +55,17 @@ Reset ==
   /\ Is("reset") /\ Adv
   /\ sid' = Ev.id
   /\ nd' = [n \in 1..Ev.nodes |-> FreshNode]
-  /\ UNCHANGED <<viol, stat>>
+  /\ UNCHANGED <<viol, stat, cells>>
 
 Note ==
   /\ Is("note") /\ Adv
   /\ nd' = IF Ev.what = "rot" THEN [nd EXCEPT ![Ev.n].rot = @ \cup {<<Ev.i, Ev.f>>}] ELSE nd
-  /\ UNCHANGED <<sid, viol, stat>>
+  /\ UNCHANGED <<sid, viol, stat, cells>>
 
 Restart ==
   /\ Is("restart") /\ Adv
   /\ nd' = [nd EXCEPT ![Ev.n] = [FreshNode EXCEPT !.rot = nd[Ev.n].rot]]
-  /\ UNCHANGED <<sid, viol, stat>>
+  /\ UNCHANGED <<sid, viol, stat, cells>>
 
 (* ---- C18: StoreLogs through the middleware *)
 Store ==
@@ -81,13 +82,13 @@ Store ==
         /\ nd' = IF ok THEN [nd EXCEPT ![n].trig = @ \o Ev.cps, ![n].ntrig = ntrig2] ELSE nd
         /\ Bump([stores |-> 1, blockedstores |-> B(ok /\ Ev.blocked), refused |-> B(Ev.foreign /\ ~ok),
                  failedstores |-> B(Ev.fail /\ ~ok)])
-  /\ UNCHANGED sid
+  /\ UNCHANGED <<sid, cells>>
 
 Delete ==
   /\ Is("del") /\ Adv
   /\ V(IF Ev.res # Ev.tres THEN {"C18a_DeleteDiffers"} ELSE {}, Ev.n)
   /\ Bump([dels |-> 1])
-  /\ UNCHANGED <<sid, nd>>
+  /\ UNCHANGED <<sid, nd, cells>>
 
 (* ---- C18a: every read through the middleware equals the twin's *)
 SameEnt(a, b, relaxExt) ==
@@ -106,7 +107,7 @@ Probe ==
                       THEN {"C18a_EntryDiffers"} ELSE {})
      IN V(bad, n)
   /\ Bump([probes |-> 1])
-  /\ UNCHANGED <<sid, nd>>
+  /\ UNCHANGED <<sid, nd, cells>>
 
 (* ---- C16 / C17 / C18d: a delivered report *)
 InRange(i, a, b) == i >= a /\ i < b
@@ -119,7 +120,7 @@ Report ==
          ps == {p \in 1..Len(q) : q[p].s = Ev.s /\ q[p].e = Ev.e}
      IN IF ps = {}
         THEN /\ V({"C18c_ReportWithoutCheckpoint"}, n) /\ Bump([reports |-> 1])
-             /\ nd' = [nd EXCEPT ![n].ndeliv = @ + 1]
+             /\ nd' = [nd EXCEPT ![n].ndeliv = @ + 1] /\ cells' = cells
         ELSE
         LET p == CHOOSE x \in ps : \A y \in ps : x <= y
             T == q[p]
@@ -130,7 +131,8 @@ Report ==
             exempt(k) == /\ Ev.read[k][1] = 1 /\ Ev.read[k][3] = CFG           \* checksumLog's bootstrap exception
                          /\ T.truth[k][1] = 1 /\ T.truth[k][3] = CFG
             differs(k) == Core(Ev.read[k]) # Core(T.truth[k])
-            eq == same /\ held /\ \A k \in 1..Len(Ev.read) : ~differs(k) \/ exempt(k)
+            cpok == T.tok /\ Core(Ev.cpread) = Core(T.cp)          \* the checkpoint entry itself is stored as its leader wrote it
+            eq == same /\ held /\ cpok /\ \A k \in 1..Len(Ev.read) : ~differs(k) \/ exempt(k)
             div == same /\ held /\ \E k \in 1..Len(Ev.read) : differs(k) /\ ~exempt(k)
             exm == same /\ held /\ \E k \in 1..Len(Ev.read) : differs(k) /\ exempt(k)
             wother == \/ ~T.tok
@@ -138,6 +140,10 @@ Report ==
                            LET w == Ev.wrote[k] IN
                            \/ (w[1] = T.te /\ Core(w) # Core(T.cp))
                            \/ (InRange(w[1], T.ts, T.te) /\ Core(w) # Core(T.truth[w[1] - T.ts + 1]))
+            mask(k) == B(Ev.read[k][1] # T.truth[k][1]) + 2 * B(Ev.read[k][2] # T.truth[k][2])
+                       + 4 * B(Ev.read[k][3] # T.truth[k][3]) + 8 * B(Ev.read[k][4] # T.truth[k][4])
+                       + 16 * B(Ev.read[k][5] # T.truth[k][5])
+            pos(k) == IF Len(Ev.read) = 1 THEN "only" ELSE IF k = 1 THEN "first" ELSE IF k = Len(Ev.read) THEN "last" ELSE "mid"
             named(i) == \/ InRange(i, Ev.s, Ev.e)
                         \/ (Ev.sk # <<>> /\ InRange(i, Ev.sk[1], Ev.sk[2]))
             skok == \A k \in 1..Len(D) : \A i \in D[k].s..(D[k].e - 1) : named(i)
@@ -148,6 +154,8 @@ Report ==
               \cup (IF Ev.err = "inflight" /\ ~wother THEN {"C17_Blame"} ELSE {})
               \cup (IF ~skok THEN {"C18d_SkippedNotNamed"} ELSE {})
         IN /\ V(bad, n)
+           /\ cells' = IF div /\ sid # "st-doctored" THEN cells \cup {<<mask(k), pos(k), Ev.err>> : k \in {x \in 1..Len(Ev.read) : differs(x) /\ ~exempt(x)}}
+                       ELSE cells
            /\ nd' = [nd EXCEPT ![n].trig = SubSeq(q, p + 1, Len(q)), ![n].ndeliv = @ + 1, ![n].dacc = @ + Len(D)]
            /\ Bump([reports |-> 1, eq |-> B(eq), lacks |-> B(~held), div |-> B(div), inflight |-> B(Ev.err = "inflight"),
                     storage |-> B(Ev.err = "storage"), range |-> B(Ev.err = "range"), afterdrop |-> B(Len(D) > 0), drops |-> Len(D),
@@ -163,13 +171,13 @@ Quiesce ==
            \cup (IF ver # nd[n].ndeliv \/ Ev.ndeliv # nd[n].ndeliv THEN {"C18c_RangesVerified"} ELSE {})
            \cup (IF cpw # nd[n].ndeliv + drop \/ drop # nd[n].dacc + Len(nd[n].trig) THEN {"C18c_Accounting"} ELSE {})
      IN /\ V(bad, n) /\ Bump([quiesces |-> 1, undelivered |-> Len(nd[n].trig)])
-  /\ UNCHANGED <<sid, nd>>        \* undelivered checkpoints stay pending: the next report has to name them
+  /\ UNCHANGED <<sid, nd, cells>>   \* undelivered checkpoints stay pending: the next report has to name them
 
 Finish ==
   /\ l = Len(Trace) + 1
-  /\ PrintT(<<"VIOL", ToJson([v |-> viol, stat |-> stat])>>)
+  /\ PrintT(<<"VIOL", ToJson([v |-> viol, stat |-> stat, cells |-> cells])>>)
   /\ l' = l + 1
-  /\ UNCHANGED <<sid, nd, viol, stat>>
+  /\ UNCHANGED <<sid, nd, viol, stat, cells>>
 
 Next == Reset \/ Note \/ Restart \/ Store \/ Delete \/ Probe \/ Report \/ Quiesce \/ Finish
 
